@@ -70,13 +70,32 @@ func reps(tier string) int {
 type lo struct {
 	limit bool
 	v     int
+	cl    bool // spelled as Clauses(clause.Limit{...}) (what Limit / Offset do themselves)
 }
 
 func (x lo) String() string {
-	if x.limit {
+	switch {
+	case x.limit && x.cl:
+		return fmt.Sprintf("Clauses(clause.Limit{Limit: &[%d]})", x.v)
+	case x.limit:
 		return fmt.Sprintf("Limit(%d)", x.v)
+	case x.cl:
+		return fmt.Sprintf("Clauses(clause.Limit{Offset: %d})", x.v)
 	}
 	return fmt.Sprintf("Offset(%d)", x.v)
+}
+
+func (x lo) apply(db *gorm.DB) *gorm.DB {
+	switch {
+	case x.limit && x.cl:
+		v := x.v
+		return db.Clauses(clause.Limit{Limit: &v})
+	case x.limit:
+		return db.Limit(x.v)
+	case x.cl:
+		return db.Clauses(clause.Limit{Offset: x.v})
+	}
+	return db.Offset(x.v)
 }
 
 // fold applies the statement's model: later positive values override earlier ones,
@@ -116,18 +135,74 @@ type chain struct {
 	steps []pred.GroupStep
 	calls []lo
 	order string // "", "id", "id desc", "a desc, id", "s, id desc"
+	// scope != "": steps[split:] (and, with scopeWindow, Order / Limit / Offset too) are applied inside one
+	// Scopes(func) call; the kind says what the function hands back:
+	//   plain          the handle it built on
+	//   session        a new session of it            return d.Where(..).Session(&gorm.Session{})
+	//   session-first  built on a new session         return d.Session(&gorm.Session{}).Where(..)
+	//   ctx            built on d.WithContext(ctx)
+	//   debug          return d.Where(..).Debug()
+	scope       string
+	split       int
+	scopeWindow bool
 }
 
-func (cc chain) desc() string {
+var scopeKinds = []string{"plain", "session", "session-first", "ctx", "debug"}
+
+type scopeCtxKey struct{}
+
+func (cc chain) plain() chain {
+	cc.scope, cc.split, cc.scopeWindow = "", 0, false
+	return cc
+}
+
+func stepsDesc(steps []pred.GroupStep) []string {
 	parts := []string{}
-	for _, s := range cc.steps {
+	for _, s := range steps {
 		parts = append(parts, fmt.Sprintf("%s(%s)", strings.Title(s.Op), s.U.Desc))
 	}
+	return parts
+}
+
+func (cc chain) windowDesc() []string {
+	parts := []string{}
 	if cc.order != "" {
 		parts = append(parts, fmt.Sprintf("Order(%q)", cc.order))
 	}
 	for _, c := range cc.calls {
 		parts = append(parts, c.String())
+	}
+	return parts
+}
+
+func (cc chain) desc() string {
+	var parts []string
+	if cc.scope == "" {
+		parts = append(stepsDesc(cc.steps), cc.windowDesc()...)
+	} else {
+		parts = stepsDesc(cc.steps[:cc.split])
+		inner := stepsDesc(cc.steps[cc.split:])
+		if cc.scopeWindow {
+			inner = append(inner, cc.windowDesc()...)
+		}
+		switch cc.scope {
+		case "session":
+			inner = append(inner, "Session(&gorm.Session{})")
+		case "debug":
+			inner = append(inner, "Debug()")
+		case "session-first":
+			inner = append([]string{"Session(&gorm.Session{})"}, inner...)
+		case "ctx":
+			inner = append([]string{"WithContext(ctx)"}, inner...)
+		}
+		body := "d"
+		if len(inner) > 0 {
+			body = "d." + strings.Join(inner, ".")
+		}
+		parts = append(parts, fmt.Sprintf("Scopes(func(d *gorm.DB) *gorm.DB { return %s })", body))
+		if !cc.scopeWindow {
+			parts = append(parts, cc.windowDesc()...)
+		}
 	}
 	if len(parts) == 0 {
 		return "db"
@@ -135,8 +210,8 @@ func (cc chain) desc() string {
 	return "db." + strings.Join(parts, ".")
 }
 
-func (cc chain) build(db *gorm.DB) *gorm.DB {
-	for _, s := range cc.steps {
+func applySteps(db *gorm.DB, steps []pred.GroupStep) *gorm.DB {
+	for _, s := range steps {
 		q, args := s.U.Query(H.DB)
 		switch s.Op {
 		case "where":
@@ -147,15 +222,46 @@ func (cc chain) build(db *gorm.DB) *gorm.DB {
 			db = db.Or(q, args...)
 		}
 	}
+	return db
+}
+
+func (cc chain) applyWindow(db *gorm.DB) *gorm.DB {
 	if cc.order != "" {
 		db = db.Order(cc.order)
 	}
 	for _, c := range cc.calls {
-		if c.limit {
-			db = db.Limit(c.v)
-		} else {
-			db = db.Offset(c.v)
+		db = c.apply(db)
+	}
+	return db
+}
+
+func (cc chain) build(db *gorm.DB) *gorm.DB {
+	if cc.scope == "" {
+		return cc.applyWindow(applySteps(db, cc.steps))
+	}
+	db = applySteps(db, cc.steps[:cc.split])
+	inner := cc.steps[cc.split:]
+	db = db.Scopes(func(d *gorm.DB) *gorm.DB {
+		switch cc.scope {
+		case "session-first":
+			d = d.Session(&gorm.Session{})
+		case "ctx":
+			d = d.WithContext(context.WithValue(context.Background(), scopeCtxKey{}, 1))
 		}
+		d = applySteps(d, inner)
+		if cc.scopeWindow {
+			d = cc.applyWindow(d)
+		}
+		switch cc.scope {
+		case "session":
+			d = d.Session(&gorm.Session{})
+		case "debug":
+			d = d.Debug()
+		}
+		return d
+	})
+	if !cc.scopeWindow {
+		db = cc.applyWindow(db)
 	}
 	return db
 }
@@ -318,10 +424,17 @@ func fromMap(m map[string]interface{}) (pred.Row, error) {
 }
 
 type checker struct {
-	c        *core.Ctx
-	cc       chain
-	table    []pred.Row
+	c     *core.Ctx
+	r     *core.Rand // random choices of the blocks (own stream, so that a block can be repeated literally)
+	cc    chain
+	table []pred.Row
+	// prev != nil: every slice / array destination has been used before - it still holds the rows of an
+	// earlier read (chain prev) when the chain under test is read into it
+	prev     *chain
 	problems []string
+	// classes of their own (precise signatures)
+	scanStale []string // Scan of an empty result into a slice that was used before
+	mapAppend []string // Find into a []map that was used before
 }
 
 func (k *checker) add(f string, a ...interface{}) {
@@ -341,22 +454,50 @@ func (k *checker) cmpRows(path string, got, want []pred.Row) {
 	}
 }
 
+func (k *checker) used() string {
+	if k.prev == nil {
+		return ""
+	}
+	return " [destination used before]"
+}
+
+func mapsToRows(ms []map[string]interface{}) ([]pred.Row, error) {
+	b := make([]pred.Row, 0, len(ms))
+	for _, m := range ms {
+		r, err := fromMap(m)
+		if err != nil {
+			return b, err
+		}
+		b = append(b, r)
+	}
+	return b, nil
+}
+
 func (k *checker) readPaths(want []pred.Row, matching []pred.Row) {
 	root := H.DB.Session(&gorm.Session{})
 	cc := k.cc
+	prev := k.prev
+	u := k.used()
+	model := func() *gorm.DB { return root.Model(&pred.Row{}) }
 	// Find -> []Row
 	var a []pred.Row
+	if prev != nil {
+		prev.build(root).Find(&a)
+	}
 	res := cc.build(root).Find(&a)
 	if res.Error != nil {
 		k.add("Find error %v", res.Error)
 	} else {
-		k.cmpRows("Find(&[]Row)", a, want)
+		k.cmpRows("Find(&[]Row)"+u, a, want)
 		if res.RowsAffected != int64(len(a)) {
-			k.add("Find RowsAffected=%d, %d rows returned", res.RowsAffected, len(a))
+			k.add("Find%s RowsAffected=%d, %d rows returned", u, res.RowsAffected, len(a))
 		}
 	}
 	// Find -> []*Row
 	var ap []*pred.Row
+	if prev != nil {
+		prev.build(root).Find(&ap)
+	}
 	if res = cc.build(root).Find(&ap); res.Error != nil {
 		k.add("Find(&[]*Row) error %v", res.Error)
 	} else {
@@ -364,10 +505,16 @@ func (k *checker) readPaths(want []pred.Row, matching []pred.Row) {
 		for i, p := range ap {
 			b[i] = *p
 		}
-		k.cmpRows("Find(&[]*Row)", b, want)
+		k.cmpRows("Find(&[]*Row)"+u, b, want)
+		if res.RowsAffected != int64(len(ap)) {
+			k.add("Find(&[]*Row)%s RowsAffected=%d, %d rows returned", u, res.RowsAffected, len(ap))
+		}
 	}
 	// Find -> array
 	var arr [48]pred.Row
+	if prev != nil {
+		prev.build(root).Find(&arr)
+	}
 	if res = cc.build(root).Find(&arr); res.Error != nil {
 		k.add("Find(&[48]Row) error %v", res.Error)
 	} else {
@@ -375,33 +522,53 @@ func (k *checker) readPaths(want []pred.Row, matching []pred.Row) {
 		if n > len(arr) {
 			n = len(arr)
 		}
-		k.cmpRows("Find(&[48]Row)", append([]pred.Row(nil), arr[:n]...), want)
+		k.cmpRows("Find(&[48]Row)"+u, append([]pred.Row(nil), arr[:n]...), want)
 		if int(res.RowsAffected) != len(want) {
-			k.add("Find(&[48]Row) RowsAffected=%d want %d", res.RowsAffected, len(want))
+			k.add("Find(&[48]Row)%s RowsAffected=%d want %d", u, res.RowsAffected, len(want))
+		}
+		for i := n; i < len(arr); i++ {
+			if !rowEq(arr[i], pred.Row{}) {
+				k.add("Find(&[48]Row)%s reported %d rows, but element %d of the array holds %s", u, n, i, arr[i])
+				break
+			}
 		}
 	}
 	// Find -> []map
 	var ms []map[string]interface{}
-	if res = cc.build(root.Model(&pred.Row{})).Find(&ms); res.Error != nil {
+	if res = cc.build(model()).Find(&ms); res.Error != nil {
 		k.add("Find(&[]map) error %v", res.Error)
 	} else {
-		b := make([]pred.Row, 0, len(ms))
-		for _, m := range ms {
-			r, err := fromMap(m)
-			if err != nil {
-				k.add("Find(&[]map): %v", err)
-				break
-			}
-			b = append(b, r)
+		b, err := mapsToRows(ms)
+		if err != nil {
+			k.add("Find(&[]map): %v", err)
 		}
 		k.cmpRows("Find(&[]map)", b, want)
 		if res.RowsAffected != int64(len(ms)) {
 			k.add("Find(&[]map) RowsAffected=%d, %d rows", res.RowsAffected, len(ms))
 		}
 	}
+	if prev != nil {
+		// the same into a []map that was used before
+		var ms2 []map[string]interface{}
+		prev.build(model()).Find(&ms2)
+		held := len(ms2)
+		if res = cc.build(model()).Find(&ms2); res.Error != nil {
+			k.add("Find(&[]map)%s error %v", u, res.Error)
+		} else if b, err := mapsToRows(ms2); err != nil {
+			k.add("Find(&[]map)%s: %v", u, err)
+		} else if held > 0 && len(ms2) == held+len(want) && res.RowsAffected == int64(len(want)) {
+			k.mapAppend = append(k.mapAppend, fmt.Sprintf("var ms []map[string]interface{}; %s.Find(&ms) (%d rows); %s.Find(&ms): RowsAffected=%d, ms holds %d maps (ids %v): the rows of the earlier read are still in front; Find into a []Row used the same way holds ids %v",
+				strings.Replace(prev.desc(), "db", "db.Model(&Row{})", 1), held, strings.Replace(cc.desc(), "db", "db.Model(&Row{})", 1), res.RowsAffected, len(ms2), ids(b), ids(want)))
+		} else {
+			k.cmpRows("Find(&[]map)"+u, b, want)
+			if res.RowsAffected != int64(len(ms2)) {
+				k.add("Find(&[]map)%s RowsAffected=%d, %d rows", u, res.RowsAffected, len(ms2))
+			}
+		}
+	}
 	// Scan
 	var sc []pred.Row
-	if res = cc.build(root.Model(&pred.Row{})).Scan(&sc); res.Error != nil {
+	if res = cc.build(model()).Scan(&sc); res.Error != nil {
 		k.add("Scan error %v", res.Error)
 	} else {
 		k.cmpRows("Scan(&[]Row)", sc, want)
@@ -409,14 +576,30 @@ func (k *checker) readPaths(want []pred.Row, matching []pred.Row) {
 			k.add("Scan RowsAffected=%d, %d rows", res.RowsAffected, len(sc))
 		}
 	}
-	// Rows + ScanRows
-	rows, err := cc.build(root.Model(&pred.Row{})).Rows()
+	if prev != nil {
+		var sc2 []pred.Row
+		prev.build(model()).Scan(&sc2)
+		held := append([]pred.Row(nil), sc2...)
+		if res = cc.build(model()).Scan(&sc2); res.Error != nil {
+			k.add("Scan%s error %v", u, res.Error)
+		} else if len(want) == 0 && len(held) > 0 && res.RowsAffected == 0 && rowsEq(sc2, held) {
+			k.scanStale = append(k.scanStale, fmt.Sprintf("var out []Row; %s.Scan(&out) (%d rows); %s.Scan(&out): the chain selects no row, RowsAffected=0, but out still holds the %d rows of the earlier read (ids %v); Find into a []Row used the same way is emptied",
+				strings.Replace(prev.desc(), "db", "db.Model(&Row{})", 1), len(held), strings.Replace(cc.desc(), "db", "db.Model(&Row{})", 1), len(sc2), ids(sc2)))
+		} else {
+			k.cmpRows("Scan(&[]Row)"+u, sc2, want)
+			if res.RowsAffected != int64(len(sc2)) {
+				k.add("Scan%s RowsAffected=%d, %d rows", u, res.RowsAffected, len(sc2))
+			}
+		}
+	}
+	// Rows + ScanRows (one record variable for all rows, as in the documented loop)
+	rows, err := cc.build(model()).Rows()
 	if err != nil {
 		k.add("Rows error %v", err)
 	} else {
 		var b []pred.Row
+		var r pred.Row
 		for rows.Next() {
-			var r pred.Row
 			if e := H.DB.ScanRows(rows, &r); e != nil {
 				k.add("ScanRows error %v", e)
 				break
@@ -428,7 +611,10 @@ func (k *checker) readPaths(want []pred.Row, matching []pred.Row) {
 	}
 	// Pluck per column
 	var pid []int64
-	if res = cc.build(root.Model(&pred.Row{})).Pluck("id", &pid); res.Error != nil {
+	if prev != nil {
+		prev.build(model()).Pluck("id", &pid)
+	}
+	if res = cc.build(model()).Pluck("id", &pid); res.Error != nil {
 		k.add("Pluck(id) error %v", res.Error)
 	} else {
 		w := ids(want)
@@ -438,15 +624,18 @@ func (k *checker) readPaths(want []pred.Row, matching []pred.Row) {
 			w = pred.SortIDs(w)
 		}
 		if !pred.IDsEqual(g, w) {
-			k.add("Pluck(id) %v, reference %v", g, w)
+			k.add("Pluck(id)%s %v, reference %v", u, g, w)
 		}
 		if res.RowsAffected != int64(len(pid)) {
-			k.add("Pluck RowsAffected=%d, %d values", res.RowsAffected, len(pid))
+			k.add("Pluck%s RowsAffected=%d, %d values", u, res.RowsAffected, len(pid))
 		}
 	}
 	if cc.order != "" {
 		var ps []string
-		if res = cc.build(root.Model(&pred.Row{})).Pluck("s", &ps); res.Error != nil {
+		if prev != nil {
+			prev.build(model()).Pluck("s", &ps)
+		}
+		if res = cc.build(model()).Pluck("s", &ps); res.Error != nil {
 			k.add("Pluck(s) error %v", res.Error)
 		} else {
 			w := make([]string, len(want))
@@ -454,14 +643,20 @@ func (k *checker) readPaths(want []pred.Row, matching []pred.Row) {
 				w[i] = r.S
 			}
 			if strings.Join(ps, "\x00") != strings.Join(w, "\x00") || len(ps) != len(w) {
-				k.add("Pluck(s) %q, reference %q", ps, w)
+				k.add("Pluck(s)%s %q, reference %q", u, ps, w)
+			}
+			if res.RowsAffected != int64(len(ps)) {
+				k.add("Pluck(s)%s RowsAffected=%d, %d values", u, res.RowsAffected, len(ps))
 			}
 		}
 		var pb []sql.NullInt64
-		if res = cc.build(root.Model(&pred.Row{})).Pluck("b", &pb); res.Error != nil {
+		if prev != nil {
+			prev.build(model()).Pluck("b", &pb)
+		}
+		if res = cc.build(model()).Pluck("b", &pb); res.Error != nil {
 			k.add("Pluck(b) error %v", res.Error)
 		} else if len(pb) != len(want) {
-			k.add("Pluck(b) %d values, reference %d", len(pb), len(want))
+			k.add("Pluck(b)%s %d values, reference %d", u, len(pb), len(want))
 		} else {
 			for i, r := range want {
 				if pb[i].Valid != (r.B != nil) || (r.B != nil && pb[i].Int64 != *r.B) {
@@ -471,10 +666,13 @@ func (k *checker) readPaths(want []pred.Row, matching []pred.Row) {
 			}
 		}
 		var pt []sql.NullString
-		if res = cc.build(root.Model(&pred.Row{})).Pluck("t", &pt); res.Error != nil {
+		if prev != nil {
+			prev.build(model()).Pluck("t", &pt)
+		}
+		if res = cc.build(model()).Pluck("t", &pt); res.Error != nil {
 			k.add("Pluck(t) error %v", res.Error)
 		} else if len(pt) != len(want) {
-			k.add("Pluck(t) %d values, reference %d", len(pt), len(want))
+			k.add("Pluck(t)%s %d values, reference %d", u, len(pt), len(want))
 		} else {
 			for i, r := range want {
 				if pt[i].Valid != (r.T != nil) || (r.T != nil && pt[i].String != *r.T) {
@@ -487,17 +685,18 @@ func (k *checker) readPaths(want []pred.Row, matching []pred.Row) {
 	// Count: only without limit/offset (statement)
 	if len(cc.calls) == 0 {
 		var n int64
-		if res = cc.build(root.Model(&pred.Row{})).Count(&n); res.Error != nil {
+		if res = cc.build(model()).Count(&n); res.Error != nil {
 			k.add("Count error %v", res.Error)
 		} else if n != int64(len(matching)) {
 			k.add("Count=%d, Find returns %d rows", n, len(matching))
 		}
 	}
 	// the pagination idiom: Count, then keep chaining on the handle Count returned (gorm
-	// restores what Count changed for exactly this use); with and without a Session in front
-	if len(cc.calls) == 0 && cc.order != "" {
+	// restores what Count changed for exactly this use); with and without a Session in front. Not through Scopes:
+	// what the handle returned by Count holds after a scope handed back a new session is not fixed by the statement
+	if len(cc.calls) == 0 && cc.order != "" && cc.scope == "" {
 		for _, viaSession := range []bool{false, true} {
-			h := cc.build(root.Model(&pred.Row{}))
+			h := cc.build(model())
 			if viaSession {
 				h = h.Session(&gorm.Session{})
 			}
@@ -528,10 +727,11 @@ func (k *checker) readPaths(want []pred.Row, matching []pred.Row) {
 	// single-record finders: only without explicit order/limit/offset
 	if len(cc.calls) == 0 && cc.order == "" {
 		byID := sortRows(matching, "id")
-		for _, name := range []string{"First", "Last", "Take", "First*", "TakeMap", "First[]", "Last[]*", "Take[]", "Take[]map", "First[2]"} {
+		for _, name := range []string{"First", "Last", "Take", "First*", "TakeMap", "First[]", "Last[]*", "Take[]", "Take[]map", "First[2]", "First(id)", "Last(id)", "Take(s)"} {
 			var r pred.Row
 			var e error
 			var ra int64
+			partial := false // the destination holds one column only
 			switch name {
 			case "First":
 				x := cc.build(root).First(&r)
@@ -550,36 +750,49 @@ func (k *checker) readPaths(want []pred.Row, matching []pred.Row) {
 			case "First[]", "Take[]":
 				// a single-record finder keeps its meaning whatever the destination holds: one record, or not found
 				var rs []pred.Row
-				x := cc.build(root).First(&rs)
+				if prev != nil {
+					prev.build(root).Find(&rs)
+				}
+				var x *gorm.DB
 				if name == "Take[]" {
-					rs = nil
 					x = cc.build(root).Take(&rs)
+				} else {
+					x = cc.build(root).First(&rs)
 				}
 				e, ra = x.Error, x.RowsAffected
 				if e == nil && len(rs) != 1 {
-					k.add("%s filled the slice with %d records", name, len(rs))
+					k.add("%s%s filled the slice with %d records", name, u, len(rs))
 				}
 				if len(rs) > 0 {
 					r = rs[0]
 				}
 			case "Last[]*":
 				var rs []*pred.Row
+				if prev != nil {
+					prev.build(root).Find(&rs)
+				}
 				x := cc.build(root).Last(&rs)
 				e, ra = x.Error, x.RowsAffected
 				if e == nil && len(rs) != 1 {
-					k.add("%s filled the slice with %d records", name, len(rs))
+					k.add("%s%s filled the slice with %d records", name, u, len(rs))
 				}
 				if len(rs) > 0 {
 					r = *rs[0]
 				}
 			case "First[2]":
 				var rs [2]pred.Row
+				if prev != nil {
+					prev.build(root).Find(&rs)
+				}
 				x := cc.build(root).First(&rs)
 				e, ra = x.Error, x.RowsAffected
 				r = rs[0]
+				if e == nil && !rowEq(rs[1], pred.Row{}) {
+					k.add("%s%s found one record, but the second element of the array holds %s", name, u, rs[1])
+				}
 			case "Take[]map":
 				var ms []map[string]interface{}
-				x := cc.build(root.Model(&pred.Row{})).Take(&ms)
+				x := cc.build(model()).Take(&ms)
 				e, ra = x.Error, x.RowsAffected
 				if e == nil && len(ms) != 1 {
 					k.add("%s filled the slice with %d maps", name, len(ms))
@@ -589,15 +802,33 @@ func (k *checker) readPaths(want []pred.Row, matching []pred.Row) {
 				}
 			case "TakeMap":
 				m := map[string]interface{}{}
-				x := cc.build(root.Model(&pred.Row{})).Take(&m)
+				x := cc.build(model()).Take(&m)
 				e, ra = x.Error, x.RowsAffected
 				if e == nil {
 					r, e = fromMap(m)
 				}
+			case "First(id)", "Last(id)":
+				// primitive destination: one column of the record
+				partial = true
+				var id int64
+				var x *gorm.DB
+				if name == "First(id)" {
+					x = cc.build(model().Select("id")).First(&id)
+				} else {
+					x = cc.build(model().Select("id")).Last(&id)
+				}
+				e, ra = x.Error, x.RowsAffected
+				r.ID = id
+			case "Take(s)":
+				partial = true
+				var s string
+				x := cc.build(model().Select("s")).Take(&s)
+				e, ra = x.Error, x.RowsAffected
+				r.S = s
 			}
 			if len(byID) == 0 {
 				if !errors.Is(e, gorm.ErrRecordNotFound) {
-					k.add("%s on an empty match returned error %v (id %d), want ErrRecordNotFound", name, e, r.ID)
+					k.add("%s on an empty match returned error %v (id %d, RowsAffected %d), want ErrRecordNotFound", name, e, r.ID, ra)
 				}
 				continue
 			}
@@ -608,19 +839,28 @@ func (k *checker) readPaths(want []pred.Row, matching []pred.Row) {
 			if ra != 1 {
 				k.add("%s RowsAffected=%d", name, ra)
 			}
+			eq := rowEq
+			if partial {
+				eq = func(x, y pred.Row) bool {
+					if name == "Take(s)" {
+						return x.S == y.S
+					}
+					return x.ID == y.ID
+				}
+			}
 			switch name {
-			case "First", "First*", "First[]", "First[2]":
-				if !rowEq(r, byID[0]) {
+			case "First", "First*", "First[]", "First[2]", "First(id)":
+				if !eq(r, byID[0]) {
 					k.add("%s returned %s, lowest key match is %s", name, r, byID[0])
 				}
-			case "Last", "Last[]*":
-				if !rowEq(r, byID[len(byID)-1]) {
+			case "Last", "Last[]*", "Last(id)":
+				if !eq(r, byID[len(byID)-1]) {
 					k.add("%s returned %s, highest key match is %s", name, r, byID[len(byID)-1])
 				}
 			default:
 				found := false
 				for _, m := range byID {
-					if rowEq(r, m) {
+					if eq(r, m) {
 						found = true
 					}
 				}
@@ -676,8 +916,10 @@ func cmpInt(a, b int64) int {
 // (a left join that filters nothing) and is executed more than once: Count then Find on the chain value, Find
 // twice, and a handle derived from the executed chain. Every execution returns the chain's rows with lvl >= x.
 func (k *checker) joined(matching []pred.Row) {
-	r := k.c.R
-	cc := k.cc
+	r := k.r
+	// what a chain value that went through a session-returning scope holds after its first execution is not the
+	// subject here: the joined chain is built without Scopes
+	cc := k.cc.plain()
 	if len(cc.calls) != 0 {
 		return
 	}
@@ -726,7 +968,7 @@ func (k *checker) joined(matching []pred.Row) {
 }
 
 func (k *checker) sharedBase(matching []pred.Row) {
-	r := k.c.R
+	r := k.r
 	root := H.DB.Session(&gorm.Session{})
 	cc := k.cc
 	cc.order = ""
@@ -991,16 +1233,42 @@ func run(c *core.Ctx) {
 	m := len(matching)
 	c.Logf("GRID n=%d bs=%d rep=%d chain=%s", n, bs, rep, base.desc())
 
-	report := func(k *checker, what string) bool {
-		if len(k.problems) == 0 {
-			return false
-		}
+	tableRows := func() []string {
 		rows := []string{}
 		for _, rw := range table {
 			rows = append(rows, rw.String())
 		}
-		c.Violation(what, map[string]interface{}{"chain": k.cc.desc(), "problems": k.problems, "table": rows, "batch_size": bs})
-		return true
+		return rows
+	}
+	// classes with a signature of their own are reported once per case
+	once := map[string]bool{}
+	report := func(k *checker, what string) bool {
+		emit := func(sig string, problems []string, limit bool) {
+			if len(problems) == 0 || (limit && once[sig]) {
+				return
+			}
+			once[sig] = true
+			d := map[string]interface{}{"chain": k.cc.desc(), "problems": problems, "table": tableRows(), "batch_size": bs}
+			if k.prev != nil {
+				d["destinations_used_before_with"] = k.prev.desc()
+			}
+			c.Violation(sig, d)
+		}
+		emit(what, k.problems, strings.Contains(what, ":"))
+		emit("Scan:used-slice-kept-on-empty-result", k.scanStale, true)
+		emit("Find[]map:used-slice-appended-to", k.mapAppend, true)
+		return len(k.problems) > 0
+	}
+	// through a Scopes call (one chain in three; two in three of these hand back a new session)
+	withScope := func(cc chain, window bool) chain {
+		if !r.Chance(1, 3) {
+			return cc
+		}
+		cc.scope = core.Pick(r, scopeKinds)
+		cc.split = r.Intn(len(cc.steps) + 1)
+		cc.scopeWindow = window && r.Bool()
+		c.Inc("chains_through_scope_" + cc.scope)
+		return cc
 	}
 
 	// (1) FindInBatches over the whole limit x offset grid for this (n, bs, condition)
@@ -1013,24 +1281,44 @@ func run(c *core.Ctx) {
 		offsets = append(offsets, o)
 	}
 	bad := 0
+	fib := func(cc chain, dest string) bool {
+		_, want := cc.reference(table)
+		k := &checker{c: c, cc: cc, table: table}
+		k.batches(bs, want, dest)
+		c.Inc("findinbatches_runs")
+		sig := "FindInBatches"
+		if len(k.problems) > 0 && cc.scope != "" {
+			// the same chain without Scopes is fine: the class is "conditions that arrive through a scope"
+			k2 := &checker{c: c, cc: cc.plain(), table: table}
+			k2.batches(bs, want, dest)
+			if len(k2.problems) == 0 {
+				sig = "FindInBatches:through-scope"
+			}
+		}
+		if report(k, sig) {
+			if sig == "FindInBatches" {
+				bad++
+			}
+			return true
+		}
+		return false
+	}
 	for _, l := range limits {
 		for _, o := range offsets {
 			cc := base
 			if l != -2 {
-				cc.calls = append(cc.calls, lo{true, l})
+				cc.calls = append(cc.calls, lo{limit: true, v: l, cl: r.Chance(1, 6)})
 			}
 			if o != -2 {
-				cc.calls = append(cc.calls, lo{false, o})
+				cc.calls = append(cc.calls, lo{limit: false, v: o, cl: r.Chance(1, 6)})
 			}
 			if l != -2 && o != -2 && r.Bool() {
 				cc.calls[0], cc.calls[1] = cc.calls[1], cc.calls[0]
 			}
+			// FindInBatches reads the chain's Limit/Offset before any scope runs: the window stays outside the scope
+			cc = withScope(cc, false)
 			_, want := cc.reference(table)
-			k := &checker{c: c, cc: cc, table: table}
-			k.batches(bs, want, core.Pick(r, []string{"val", "ptr"}))
-			c.Inc("findinbatches_runs")
-			if report(k, "FindInBatches") {
-				bad++
+			if fib(cc, core.Pick(r, []string{"val", "ptr"})) {
 				if bad > 3 {
 					return
 				}
@@ -1042,42 +1330,86 @@ func run(c *core.Ctx) {
 		}
 	}
 	// (2) override / cancel sequences and all other read paths
-	for t := 0; t < 6; t++ {
+	orders := []string{"id", "id desc", "a desc, id", "s, id desc"}
+	for t := 0; t < 8; t++ {
 		cc := base
-		if t >= 2 {
+		switch {
+		case t == 1:
+			cc.order = core.Pick(r, orders)
+		case t >= 2 && t < 6:
 			nc := r.Range(1, 4)
 			for j := 0; j < nc; j++ {
 				v := r.Range(1, m+2)
 				if r.Chance(1, 4) {
 					v = -1
 				}
-				cc.calls = append(cc.calls, lo{r.Bool(), v})
+				cc.calls = append(cc.calls, lo{limit: r.Bool(), v: v, cl: r.Chance(1, 6)})
 			}
-			cc.order = core.Pick(r, []string{"id", "id desc", "a desc, id", "s, id desc"})
-		} else if t == 1 {
-			cc.order = core.Pick(r, []string{"id", "id desc", "a desc, id", "s, id desc"})
+			cc.order = core.Pick(r, orders)
+		case t >= 6:
+			// an empty page: Limit(0) as the only Limit call, anywhere among 0..2 Offset calls
+			nc := r.Intn(3)
+			for j := 0; j < nc; j++ {
+				v := r.Range(1, m+2)
+				if r.Chance(1, 4) {
+					v = -1
+				}
+				cc.calls = append(cc.calls, lo{limit: false, v: v, cl: r.Chance(1, 6)})
+			}
+			at := r.Intn(len(cc.calls) + 1)
+			cc.calls = append(cc.calls[:at:at], append([]lo{{limit: true, v: 0, cl: r.Chance(1, 3)}}, cc.calls[at:]...)...)
+			cc.order = core.Pick(r, orders)
 		}
-		mt, want := cc.reference(table)
-		k := &checker{c: c, cc: cc, table: table}
-		k.readPaths(want, mt)
-		k.sharedBase(mt)
-		k.joined(mt)
+		cc = withScope(cc, true)
+		// every second time the destinations have been used before: by the whole table, by all matching rows, or by a page
+		var prev *chain
+		if r.Bool() {
+			p := chain{order: cc.order}
+			switch r.Intn(3) {
+			case 1:
+				p.steps = cc.steps
+			case 2:
+				p.order = "id"
+				p.calls = []lo{{limit: true, v: r.Range(1, 3)}}
+			}
+			prev = &p
+			c.Inc("read_path_comparisons_into_used_destinations")
+		}
+		seed := r.U64()
+		runAll := func(cc chain, prev *chain) *checker {
+			mt, want := cc.reference(table)
+			k := &checker{c: c, r: core.NewRand(seed), cc: cc, table: table, prev: prev}
+			k.readPaths(want, mt)
+			k.sharedBase(mt)
+			k.joined(mt)
+			return k
+		}
+		_, want := cc.reference(table)
+		k := runAll(cc, prev)
 		c.Inc("read_path_comparisons")
-		if report(k, "ReadPaths") {
+		sig := "ReadPaths"
+		if len(k.problems) > 0 && (cc.scope != "" || prev != nil) && len(runAll(cc.plain(), nil).problems) == 0 {
+			// the chain read directly into fresh destinations is fine: name what made the difference
+			switch {
+			case cc.scope != "" && len(runAll(cc, nil).problems) > 0:
+				sig = "ReadPaths:through-scope"
+			case prev != nil && len(runAll(cc.plain(), prev).problems) > 0:
+				sig = "ReadPaths:used-destination"
+			default:
+				sig = "ReadPaths:through-scope+used-destination"
+			}
+		}
+		if report(k, sig) {
 			continue
 		}
-		if len(want) > 0 {
-			c.Shape("read", n, len(cc.calls), cc.order, len(steps), len(want) == len(table))
+		if len(want) > 0 || (len(cc.calls) > 0 && prev != nil) || (cc.scope != "" && t == 0) {
+			c.Shape("read", n, len(cc.calls), cc.order, len(steps), len(want) == len(table), cc.scope, prev != nil)
 		}
 		// FindInBatches with override/cancel sequences (pk order only)
-		if cc.order == "id" || cc.order == "" {
+		if (cc.order == "id" || cc.order == "") && !cc.scopeWindow {
 			cc2 := cc
 			cc2.order = ""
-			_, w2 := cc2.reference(table)
-			k2 := &checker{c: c, cc: cc2, table: table}
-			k2.batches(bs, w2, "val")
-			c.Inc("findinbatches_runs")
-			report(k2, "FindInBatches")
+			fib(cc2, "val")
 		}
 	}
 	// (3) a read that fails while the database produces its first row (abs() of the smallest integer
@@ -1096,12 +1428,19 @@ var Engine = &core.Engine{
 	ID:    "C15",
 	Level: "exploration",
 	Rule: "grid: every table size 0..12 (quick) / 0..40 (thorough) x every batch size 1..N+2 x repetitions (first without condition, others with a random C02 chain incl. Or); for each grid point FindInBatches is run for every limit in {none, 0..m+1} x offset in {none, 1..m+1} (m = matching rows) and compared with the reference window; " +
-		"then Find into []T/[]*T/array/[]map, Scan, Rows+ScanRows, Pluck per column, Count, First/Last/Take (struct, pointer, map) are compared with the reference under random order and override/cancel sequences of Limit/Offset, and once more from one reusable base (0..3 Order calls) whose derived handles are run after the base was used again; a read that fails at run time while the first row is produced must fail on every path; distinct = (size, batch, limit, offset, conditioned, rows delivered) resp. (size, calls, order, units); non-trivial = at least one row delivered",
+		"then Find into []T/[]*T/array/[]map, Scan, Rows+ScanRows (one record variable for all rows), Pluck per column, Count, First/Last/Take (struct, pointer, map, slices, array, and one column into a primitive) are compared with the reference for 8 windows per grid point: none, order only, 4 random override/cancel sequences of Limit/Offset, and 2 empty pages (Limit(0) as the only Limit call among 0..2 Offset calls); Limit/Offset are spelled as methods or as Clauses(clause.Limit{..}); " +
+		"one chain in three (also in the FindInBatches grid) hands a suffix of its conditions - for the read paths sometimes Order/Limit/Offset too - over through Scopes(func), the function returning the handle it built on, a new session of it (Session, Debug) or a chain built on a new session of it (Session, WithContext); " +
+		"every second time each slice / array destination has been used before (it still holds the whole table, all matching rows or a page when the chain under test is read into it; an array must be zero beyond the rows reported); " +
+		"all of it once more from one reusable base (0..3 Order calls) whose derived handles are run after the base was used again, and on a chain with hand-built joins executed repeatedly; a read that fails at run time while the first row is produced must fail on every path. " +
+		"Signatures: ReadPaths / FindInBatches, with the suffix :through-scope, :used-destination when the same chain read directly into fresh destinations is fine; classes of their own: Scan:used-slice-kept-on-empty-result, Find[]map:used-slice-appended-to (once per case). " +
+		"distinct = (size, batch, limit, offset, conditioned, rows delivered) resp. (size, calls, order, units, scope kind, used destinations); non-trivial = at least one row delivered, or an empty window read into used destinations, or single-record finders through a scope",
 	Assumptions: []string{
 		"keys have gaps; rows are inserted with raw SQL",
 		"Limit(0) is only used as the sole Limit call (LIMIT 0: Find returns nothing); mixed zero/positive sequences are not covered by the statement's override/cancel sentence and are not generated",
 		"paths with a window always carry an explicit total order; FindInBatches is compared in primary-key order only",
 		"Count is compared only on chains without Limit/Offset, single-record finders only without explicit order/limit/offset (as the statement says)",
+		"FindInBatches gets its Limit/Offset on the chain itself, never from inside a scope (it reads them before scopes run); the conditions may come from a scope",
+		"not generated, because the statement does not fix it: chaining on the handle returned by Count when the chain went through Scopes (after a scope that hands back a new session the handle keeps SELECT count(*)); re-executing a chain value that carries Scopes; single-record finders into a struct that already holds a key (the key becomes a condition); maps as used destinations of Take",
 	},
 	Cases:         func(tier string) int { return (maxN(tier) + 1) * (maxN(tier) + 2) * reps(tier) },
 	Batch:         func(tier string) int { return 48 },
